@@ -31,12 +31,17 @@ end ML
 namespace TLSpec
 open TL
 
+/-- what one attribute contributes to the line -/
 inductive Piece where
+  /-- a non-empty, non-group attribute: ` name=tok`, `name` being the dot-joined groups in force followed by the key -/
   | kv (name tok : Bytes)
+  /-- a non-empty group: prints nothing itself, but (like any printed attribute) calls for the ` |` separator -/
   | opener
+  /-- a stack carrier that is picked up as the record's stack (the last one wins) -/
   | stack (trace : Bytes)
 
 mutual
+/-- the pieces of one attribute under the prefix `p` (no walk state: the prefix is passed down, never restored) -/
 def pieces (p : Bytes) : Attr → List Piece
   | .leaf k t => [.kv (p ++ k) t]
   | .empty => []
@@ -62,6 +67,7 @@ def anyVisible (ps : List Piece) : Bool := ps.any Piece.visible
 def texts (ps : List Piece) : Bytes := ps.flatMap Piece.text
 def lastStack (ps : List Piece) : Option Bytes := (ps.filterMap Piece.trace?).getLast?
 
+/-- the effect of a list of pieces on the walk state of tracelog.go -/
 def applyPieces (s : FSt) (ps : List Piece) : FSt :=
   { buf := s.buf ++ ((if s.needBar && anyVisible ps then [32, 124] else []) ++ texts ps),
     group := s.group,
